@@ -855,4 +855,36 @@ theorem inv_nvUndelegate {s s' : St} {c sd : Addr} {vo : Bool} {d : Denom} {amt 
     show l ≤ Bank.bal _ lock fee + Bank.bal _ lock shareD + sumUnb lock (s.scUnb ++ [⟨lock, amt, s.now + s.ut⟩])
     rw [fL, fS, sumUnb_append]; simp; omega
 
+theorem trackDel_facts {v : Variant} {bal locked dv df amt dv' df' : Int} (ha : 0 ≤ amt)
+    (h : trackDelegation v bal locked dv df amt = some (dv', df')) :
+    ∃ x, 0 ≤ x ∧ x ≤ amt ∧ x ≤ max (locked - dv) 0 ∧ (x = amt ∨ locked - dv ≤ x) ∧ dv' = dv + x ∧ df' = df + (amt - x)
+      ∧ amt ≠ 0 ∧ amt ≤ bal := by
+  have hv : ∃ sd, v = vOf sd := by cases v; exact ⟨false, rfl⟩; exact ⟨true, rfl⟩
+  obtain ⟨sd, rfl⟩ := hv
+  have b1 := trackDel_bound sd locked dv amt ha
+  have b2 := trackDel_lockedFirst sd locked dv amt ha
+  have b3 := trackDel_split sd locked dv amt
+  have c1 := track_coinArith sd dv (kDelX (vOf sd) locked dv amt)
+  have c2 := track_coinArith sd df (kDelY (vOf sd) amt (kDelX (vOf sd) locked dv amt))
+  unfold S_trackDel_split at b3
+  unfold trackDelegation at h
+  split at h; · simp at h
+  rename_i hrej
+  simp only [Option.some.injEq, Prod.mk.injEq] at h
+  obtain ⟨e1, e2⟩ := h
+  refine ⟨kDelX (vOf sd) locked dv amt, b1.1, b1.2.2, b1.2.1, b2, ?_, ?_, ?_, ?_⟩
+  · rw [← e1]
+    split
+    · exact c1.1
+    · rename_i hz
+      cases sd <;> simp [vOf, kDelSetDV, nv_trackDel_setDV, sd_trackDel_setDV, Int.isZeroB] at hz <;> simp [vOf] <;> omega
+  · rw [← e2]
+    split
+    · rw [c2.2.1]; omega
+    · rename_i hz
+      cases sd <;> simp [vOf, kDelSetDF, nv_trackDel_setDF, sd_trackDel_setDF, Int.isZeroB] at hz <;> simp [vOf] at b3 ⊢ <;> omega
+  · intro hz; subst hz
+    cases sd <;> simp [vOf, kDelReject, nv_trackDel_reject, sd_trackDel_reject, Int.isZeroB] at hrej
+  · cases sd <;> simp [vOf, kDelReject, nv_trackDel_reject, sd_trackDel_reject, Int.isZeroB] at hrej <;> omega
+
 end Sunrise.C12
